@@ -99,7 +99,16 @@ outer:
 	if trace.RootSpan != nil {
 		for _, field := range d.rootOnlyFields {
 			if trace.RootSpan.Data.Exists(field) {
-				d.keyBuilder.WriteString(fmt.Sprintf("%v,", trace.RootSpan.Data.Get(field)))
+				// A float is written the way AddAsString writes the non-root fields: JSON
+				// delivers every number as a float64, and %v would render a whole number
+				// from 1e6 up in exponent form ("1.5e+06"), so the key would depend on
+				// whether the same number arrived as JSON or as a msgpack/OTLP integer.
+				if f, ok := trace.RootSpan.Data.Get(field).(float64); ok {
+					d.keyBuilder.WriteString(strconv.FormatFloat(f, 'f', -1, 64))
+					d.keyBuilder.WriteRune(',')
+				} else {
+					d.keyBuilder.WriteString(fmt.Sprintf("%v,", trace.RootSpan.Data.Get(field)))
+				}
 				fieldCount += 1
 			}
 		}
